@@ -16,8 +16,11 @@ Open Scope N_scope.
 Inductive cnode := CN (tag : N) (id : option N) (classes : list N) (style : list decl)
                       (width height size : option N).
 Inductive ob := Ob (prop : N) (vid : N).
+(* what was observed on the pseudo-element k (1 before, 2 after, 3 marker) of an
+   element; present = false: StyleFor.Get returned nil (no rule selected it) *)
+Inductive pobs := PO (k : N) (present : bool) (obs : list ob).
 (* an element (itself :: ancestors) and what was observed on it *)
-Inductive eobs := EO (p : list cnode) (obs : list ob).
+Inductive eobs := EO (p : list cnode) (obs : list ob) (pseudos : list pobs).
 Inductive usheet := US (device : N) (r : rules).
 Inductive s3 := S3 (a b c : N).
 Inductive fdump := FD (specs : list s3) (ds : list decl).
@@ -48,17 +51,35 @@ Fixpoint expected (d : document) (p : path) (prop : N) : N :=
   match p with
   | [] => 0
   | _ :: anc =>
-      match used d p prop with
+      match used d 0 p prop with
       | Some v => v
       | None => if inherited prop then expected d anc prop else 0
       end
   end.
 
+(* a pseudo-element inherits from its element *)
+Definition expected_pseudo (d : document) (k : N) (p : path) (prop : N) : N :=
+  match used d k p prop with
+  | Some v => v
+  | None => if inherited prop then expected d p prop else 0
+  end.
+
+Definition pseudo_out (d : document) (p : path) (po : pobs) : list N :=
+  let 'PO k present obs := po in
+  map (fun o => let 'Ob prop _ := o in
+                if present then expected_pseudo d k p prop
+                else match used d k p prop with Some v => v | None => 0 end) obs.
+
 Definition elem_out (d : document) (e : eobs) : list N :=
-  let 'EO p obs := e in map (fun o => let 'Ob prop _ := o in expected d (map to_node p) prop) obs.
+  let 'EO p obs ps := e in
+  map (fun o => let 'Ob prop _ := o in expected d (map to_node p) prop) obs
+  ++ flat_map (pseudo_out d (map to_node p)) ps.
+
+Definition obs_vals (obs : list ob) : list N := map (fun o => let 'Ob _ v := o in v) obs.
 
 Definition elem_impl (e : eobs) : list N :=
-  let 'EO _ obs := e in map (fun o => let 'Ob _ v := o in v) obs.
+  let 'EO _ obs ps := e in
+  obs_vals obs ++ flat_map (fun po => let 'PO _ _ o := po in obs_vals o) ps.
 
 Fixpoint nlist_eqb (a b : list N) : bool :=
   match a, b with
